@@ -345,6 +345,18 @@ func checkC16Bad(job *Job, res *Result) {
 				}
 			}
 		}
+		// ---- request paths with quotes, broken escapes and separators (the path is split like a telnet line)
+		for _, path := range []string{`/set+a+b+string+%22`, `/%22`, `/set+a+%22b`, `/"`, `/a+"`, `/set+a+b+string+"x"`, `/set+a+b+string+%22x%22`, `/+`, `/++`, `/%`, `/%2`, `/%zz`, `/%00`, `//`, `/?x`, `/#`, `/'`, `/set+a+b+string+'`, `/{`, `/set+a+b+object+{`, `/%7B%22a%22`, `/ping+%22`, `/\\`} {
+			for _, m := range []string{"GET", "POST"} {
+				hn++
+				if hn%job.NShards != job.Shard {
+					continue
+				}
+				if !check("http-path", []byte(m+" "+path+" HTTP/1.1\r\nHost: x\r\n\r\n")) {
+					return
+				}
+			}
+		}
 		res.Bounds["http_requests"] = hn
 		// ---- declared sizes: array counts, bulk lengths, native lengths and HTTP
 		// Content-Length at the boundaries of the integer types
